@@ -442,6 +442,8 @@ D_EXTRA['C05'] = _c05_extra
 
 # zip-equality sites without a length test that are fine (engines/ziplint.py)
 ZIP_EQ_OK = {
+    '<midnight_curves::bn256::fq::Fq as subtle::ConstantTimeEq>::ct_eq|zip:self~other': 'both sides are the [u64; 4] limbs of one type (dev-curves)',
+    '<midnight_curves::bn256::fr::Fr as subtle::ConstantTimeEq>::ct_eq|zip:self~other': 'both sides are the [u64; 4] limbs of one type (dev-curves)',
     '<midnight_curves::curve25519::fp::Fp as subtle::ConstantTimeEq>::ct_eq|zip:self~other': 'both sides are the [u64; 4] limbs of one type',
     'midnight_circuits::ecc::foreign::ecc_chip::ForeignEccChip::k_out_of_n_points|zip:idxs~idxs': 'adjacent pairs of one vector (zip with skip(1))',
     'midnight_circuits::field::decomposition::chip::P2RDecompositionConfig::new|zip:native_config~pow2range_config': 'configuration sanity assert over column lists; prefix comparison intended (pow2range uses the first columns)',
